@@ -2,7 +2,7 @@
  * every clock read is a decision, default +1 tick (1 us), deviation = jump by 1 s). */
 #include "hcommon.h"
 #include <unistd.h>
-enum { FM_SLEEP, FM_TLOCK, FM_TJOIN };
+enum { FM_SLEEP, FM_TLOCK, FM_TJOIN, FM_TLOCKQ };
 /* deadline codes: 0 = one second in the past, 1 = now, 2 = now + 3 ticks, 3 = now + 8 ticks */
 typedef struct { int fam, a, dl, W, K; } prog_t;
 #define MAXP 200
@@ -14,6 +14,8 @@ static void build(void) {
     int K = tier ? 3 : 2;
     for (int a = 0; a < 4; a++) add(tier, FM_SLEEP, a, 0, W, a == 3 ? 2 : K);        /* a: 0 nanosleep(0), 1 nanosleep(3 ticks), 2 usleep(5us), 3 sleep(0) */
     for (int a = 0; a < 3; a++) for (int dl = 0; dl < 4; dl++) add(tier, FM_TLOCK, a, dl, W, (a == 2 || dl == 3) ? 2 : K);   /* a: 0 no holder, 1 holder yields once, 2 holder yields 3 times */
+    /* timed lock against a holder AND queued lockers: when the holder leaves, the mutex is free although waiters are queued */
+    for (int a = 1; a <= 2; a++) for (int dl = 2; dl < 4; dl++) add(tier, FM_TLOCKQ, a, dl, W, a == 1 ? 2 : 1);
     for (int a = 0; a < 3; a++) for (int dl = 0; dl < 4; dl++) add(tier, FM_TJOIN, a, dl, W, (a == 2 || dl == 3) ? 2 : K);   /* a: 0 target already finished, 1 target yields once, 2 target yields 3 times */
   }
 }
@@ -28,6 +30,7 @@ static void describe(int tier, int prog, char * b, size_t n) {
   switch (p->fam) {
   case FM_SLEEP: snprintf(b, n, "%s with a runnable sibling", sl[p->a]); break;
   case FM_TLOCK: snprintf(b, n, "timedlock, %s, %s", ho[p->a], dl_name[p->dl]); break;
+  case FM_TLOCKQ: snprintf(b, n, "timedlock, holder yields once and %d plain locker(s) queued behind it, %s", p->a, dl_name[p->dl]); break;
   default: snprintf(b, n, "timedjoin, %s, %s", tg[p->a], dl_name[p->dl]); break;
   }
 }
@@ -48,6 +51,7 @@ static void * holder(void * a) {
   myth_mutex_unlock(&m); holder_done = 1;
   return 0;
 }
+static void * locker(void * a) { (void)a; myth_mutex_lock(&m); occ++; mv_point(&occ, sizeof(int)); MV_CHECK(occ == 1, "two threads hold the mutex"); occ--; myth_mutex_unlock(&m); return 0; }
 static void * target(void * a) { int y = (int)(long)a; for (int i = 0; i < y; i++) myth_yield(); mv_point(&tfin, sizeof(int)); tfin = 1; return (void *)777; }
 
 static void run(int tier, int prog) {
@@ -93,6 +97,30 @@ static void run(int tier, int prog) {
     if (h) myth_join(h, 0);
     mv_obs("tlock r=%d", r);
     break; }
+  case FM_TLOCKQ: {
+    myth_thread_t h = myth_create(holder, (void *)1L), q[2];
+    while (!holder_has && !holder_done) mv_wait_until_changed(&holder_has, sizeof(int));
+    for (int i = 0; i < cur->a; i++) q[i] = myth_create(locker, 0);
+    mv_watch(&m.state, sizeof m.state);
+    struct timespec dl; deadline(&dl, cur->dl);
+    int r = myth_mutex_timedlock(&m, &dl);
+    MV_CHECK(r == 0 || r == ETIMEDOUT, "timedlock returned %d", r);
+    if (r == 0) { occ++; mv_point(&occ, sizeof(int)); MV_CHECK(occ == 1, "timedlock succeeded while another thread holds the mutex"); occ--; myth_mutex_unlock(&m); mv_cover(5); }
+    else {
+      MV_CHECK(after(&dl), "timedlock timed out before its deadline");
+      /* every round of the timed wait reads the clock and then attempts: a round that began with the lock bit clear, before
+         the deadline, and during which no other worker ran must have taken the mutex */
+      mv_csample_t cs[64]; int n = mv_clock_samples(myth_self(), cs, 64);
+      for (int i = 0; i < n; i++)
+	MV_CHECK(!((cs[i].value & 1) == 0 && cs[i].now_ns <= ts_ns(&dl) && cs[i].switches == cs[i].next_switches),
+		 "timedlock timed out although the mutex was free (state word %#lx: lock bit clear, %ld waiter(s) queued) at its attempt at virtual time %ld ns, before the deadline",
+		 (unsigned long)cs[i].value, (long)(cs[i].value >> 1), cs[i].now_ns);
+      mv_cover(6);
+    }
+    myth_join(h, 0); for (int i = 0; i < cur->a; i++) myth_join(q[i], 0);
+    MV_CHECK(m.state == 0, "mutex state %ld at the end", (long)m.state);
+    mv_obs("tlockq r=%d", r);
+    break; }
   default: {
     myth_thread_t t = myth_create(target, (void *)(long)(cur->a == 0 ? 0 : cur->a == 1 ? 1 : 3));
     if (cur->a == 0) { while (mythv_desc_status(t) != 3) mv_wait_until_changed(mythv_desc_status_ptr(t), sizeof(int)); }
@@ -115,6 +143,6 @@ static void run(int tier, int prog) {
   }
   mv_finish();
 }
-static const char * const cover_names[] = { "sibling_ran_during_sleep", "timedlock_ok", "timedlock_timeout", "timedjoin_ok", "timedjoin_timeout", 0 };
-static uint64_t cover_required(int tier) { (void)tier; return 0x1f; }
+static const char * const cover_names[] = { "sibling_ran_during_sleep", "timedlock_ok", "timedlock_timeout", "timedjoin_ok", "timedjoin_timeout", "timedlock_with_queue_ok", "timedlock_with_queue_timeout", 0 };
+static uint64_t cover_required(int tier) { (void)tier; return 0x7f; }
 mc_harness_t mc_harness = { "C20", "timed", nprogs, describe, config, run, cover_names, cover_required };
